@@ -39,6 +39,7 @@ pub const CONSUMERS: &[&str] = &[
     "bytes_from_iter",
     "mutref_box",
     "bytesmut_put_twice",
+    "cursor_asref",
 ];
 
 pub const LIES: &[(&str, &str)] = &[
@@ -230,6 +231,11 @@ pub struct LyingOwner {
 impl AsRef<[u8]> for LyingOwner {
     fn as_ref(&self) -> &[u8] {
         let c = self.calls.fetch_add(1, std::sync::atomic::Ordering::SeqCst);
+        // call budget: a consumer that loops on inconsistent answers is stopped by a panic
+        // (a hang is not a memory-safety violation, and the run must end)
+        if c > 400 {
+            panic!("LyingOwner: call budget exhausted");
+        }
         match self.mode {
             0 => panic!("LyingOwner: as_ref told to panic"),
             1 => {
@@ -298,8 +304,37 @@ pub fn run(case: &J, _given: Option<&[J]>, _rng: &mut Rng, _steps: usize, journa
     let mut probes: std::collections::BTreeMap<&'static str, u64> = Default::default();
     let mut fired = 0u64;
     let mut guard_bad = false;
+    let mut bogus: Option<String> = None;
     let r = catch_unwind(AssertUnwindSafe(|| {
         match consumer.as_str() {
+            "cursor_asref" => {
+                // io::Cursor<T> over a T whose as_ref() answers differently per call
+                let n = case.us("n");
+                let o = LyingOwner { a: Rng::new(case.u64("seed")).bytes(n), b: vec![1, 2, 3], calls: Default::default(), mode: 1 + arg % 2 };
+                let ranges = [(o.a.as_ptr() as usize, o.a.len()), (o.b.as_ptr() as usize, o.b.len())];
+                let mut cu = std::io::Cursor::new(o);
+                cu.set_position(((arg / 2) % (n + 3)) as u64);
+                for round in 0..4 {
+                    let got = catch_unwind(AssertUnwindSafe(|| {
+                        let c = Buf::chunk(&cu);
+                        (c.as_ptr() as usize, c.len())
+                    }));
+                    if let Ok((p, l)) = got {
+                        if l > 0 && !ranges.iter().any(|&(rp, rl)| p >= rp && p + l <= rp + rl && l <= rl) {
+                            bogus = Some(format!("Cursor<T>::chunk() returned {} bytes at {:#x}, outside every slice T::as_ref ever returned (round {})", l, p, round));
+                            break;
+                        }
+                    }
+                    let _ = catch_unwind(AssertUnwindSafe(|| Buf::remaining(&cu)));
+                    let mut d = [0u8; 8];
+                    let k = (arg + round) % 9;
+                    let _ = catch_unwind(AssertUnwindSafe(|| cu.copy_to_slice(&mut d[..k])));
+                    let _ = catch_unwind(AssertUnwindSafe(|| cu.get_u16_le()));
+                    let _ = catch_unwind(AssertUnwindSafe(|| cu.advance(1 + round)));
+                    let _ = catch_unwind(AssertUnwindSafe(|| cu.copy_to_bytes(k / 2)));
+                }
+                fired += 1;
+            }
             "bytesmut_put" | "bytesmut_put_twice" => {
                 let mut m = BytesMut::with_capacity(arg % 40);
                 m.extend_from_slice(b"head");
@@ -477,8 +512,15 @@ pub fn run(case: &J, _given: Option<&[J]>, _rng: &mut Rng, _steps: usize, journa
             }
             "from_owner" => {
                 let o = LyingOwner { a: Rng::new(case.u64("seed")).bytes(case.us("n")), b: vec![1, 2, 3], calls: Default::default(), mode: arg % 3 };
+                let ranges = [(o.a.as_ptr() as usize, o.a.len()), (o.b.as_ptr() as usize, o.b.len())];
                 let r = catch_unwind(AssertUnwindSafe(|| Bytes::from_owner(o)));
                 if let Ok(b) = r {
+                    // whatever the owner answered, the view must be one of its answers (or part of one)
+                    let (p, l) = (b.as_ptr() as usize, b.len());
+                    if l > 0 && !ranges.iter().any(|&(rp, rl)| p >= rp && l <= rl && p + l <= rp + rl) {
+                        bogus = Some(format!("Bytes::from_owner: the view ({} bytes at {:#x}) is not inside any slice the owner's as_ref returned", l, p));
+                        return;
+                    }
                     let c = b.clone();
                     let s = b.slice(..b.len() / 2);
                     let _ = catch_unwind(AssertUnwindSafe(|| Vec::from(c)));
@@ -536,6 +578,9 @@ pub fn run(case: &J, _given: Option<&[J]>, _rng: &mut Rng, _steps: usize, journa
     if let Err(p) = r {
         // a panic escaping the inner catch_unwinds (e.g. in Drop) is still only a panic
         let _ = rt::panic_message(&*p);
+    }
+    if let Some(detail) = bogus {
+        viol.push(Violation { props: vec!["C17"], kind: "chunk-outside-owner-memory".into(), detail, step: 0 });
     }
     if guard_bad {
         viol.push(Violation {
